@@ -23,6 +23,7 @@ RULE = (
     "syntenies (<=5 families, <=5 leaves): _make_prec_graph + toposort_all == all permutations having every leaf list as a subsequence.  "
     "Both tiers enumerate the <=4-vertex space completely.  Non-trivial: >=2 orderings, or a cycle that does not pass through every vertex; "
     "distinct by SHA-1 of the graph."
+    '  Graphs are built with a permuted vertex insertion order, successors as sets or lists, labels ints, fixed-width strings or strings whose concatenations collide.'
 )
 ASSUMPTIONS = ["every vertex is a key of the mapping"]
 BUDGET = {"quick": {"random": 1500}, "thorough": {"random": 40000}}
